@@ -13,17 +13,6 @@ nesting level"; a pair is not (empty key, empty value).  Any number of arguments
 namespace Bpp.C17
 open Bpp.Text Bpp.Text.Keyval
 
-theorem foldlM_tokens (kvs : List (Str × Str)) (h : kvs.all PairOk = true) (m0 : Map) :
-    (kvs.map tokOf).foldlM kvStep m0
-      = some (kvs.foldl (fun m kv => mapInsert kv.1 kv.2 m) m0) := by
-  induction kvs generalizing m0 with
-  | nil => rfl
-  | cons a rest ih =>
-    simp only [List.all_cons, Bool.and_eq_true] at h
-    obtain ⟨h1, h2, h3⟩ := singleKeyval_tok a h.1
-    simp only [List.map_cons, List.foldlM_cons, kvStep, h1, h2, h3, List.foldl_cons]
-    exact ih h.2 _
-
 /-- **parse ∘ render = id** on procedures: the name and the argument map come back -/
 theorem parse_render (name : Str) (kvs : List (Str × Str))
     (hn : NameOk name = true) (hk : kvs.all PairOk = true) :
@@ -40,20 +29,6 @@ theorem parse_render (name : Str) (kvs : List (Str × Str))
   simp only [hm]
   rw [foldlM_tokens kvs hk]
   rfl
-
-theorem findChar_none (c : Char) (s : Str) (h : ∀ a ∈ s, a ≠ c) : findChar c s = none := by
-  induction s with
-  | nil => rfl
-  | cons a t ih =>
-    have : (a == c) = false := by simpa using h a (List.mem_cons_self ..)
-    simp [findChar, this, ih (fun x hx => h x (List.mem_cons_of_mem _ hx))]
-
-theorem findLastChar_none (c : Char) (s : Str) (h : ∀ a ∈ s, a ≠ c) : findLastChar c s = none := by
-  induction s with
-  | nil => rfl
-  | cons a t ih =>
-    have : (a == c) = false := by simpa using h a (List.mem_cons_self ..)
-    simp [findLastChar, this, ih (fun x hx => h x (List.mem_cons_of_mem _ hx))]
 
 /-- a procedure without parentheses is its own name, with no arguments -/
 theorem parse_bare_name (name : Str) (h : name.all (fun c => c != '(' && c != ')') = true) :
@@ -89,25 +64,6 @@ theorem mapFind_insert (k k' v : Str) (m : Map) :
         · simp [h]
 
 /-! ## substitution -/
-
-theorem foldlM_change (newkv : Map) (L : List (Str × Str)) (h : L.all PairOk = true) (pre : Str) :
-    (L.map tokOf).foldlM (chgStep newkv [',']) (false, pre)
-      = some (false, pre ++ commaToks (substArgs newkv L)) := by
-  induction L generalizing pre with
-  | nil => simp [commaToks, substArgs]
-  | cons a rest ih =>
-    simp only [List.all_cons, Bool.and_eq_true] at h
-    obtain ⟨h1, h2, _⟩ := singleKeyval_tok a h.1
-    simp only [List.map_cons, List.foldlM_cons, chgStep, h1, h2]
-    cases hf : mapFind a.1 newkv with
-    | some nv =>
-      simp only [Bool.false_eq_true, if_false, Option.bind_eq_bind, Option.bind_some]
-      rw [ih h.2]
-      simp [commaToks, substArgs, hf, tokOf]
-    | none =>
-      simp only [Bool.false_eq_true, if_false, Option.bind_eq_bind, Option.bind_some]
-      rw [ih h.2]
-      simp [commaToks, substArgs, hf, tokOf]
 
 /-- **substituting arguments changes exactly the named ones**: the result is the rendering of the
 same name with the same keys in the same order, the value replaced where (and only where) the key
